@@ -73,7 +73,7 @@ def replay_one(ctx, binary, rp):
 
 
 def run_g(ctx, binary):
-    num = ctx.q(150, 1000)
+    num = ctx.q(150, 700)
     depth = ctx.q(36, 60)
     beh = ctx.tlc_behaviours("ManifestCAS.tla", ctx.q("c02_sim_quick.cfg", "c02_sim_thorough.cfg"), num=num, depth=depth)
     beh += ctx.tlc_behaviours("ManifestCAS.tla", ctx.q("c02_race_quick.cfg", "c02_race_thorough.cfg"), num=num, depth=depth,
@@ -130,7 +130,7 @@ def t_cases(ctx, n):
 
 
 def run_t(ctx, binary):
-    n = ctx.q(21, 210)
+    n = ctx.q(14, 63)
     cases = t_cases(ctx, n)
     res = ctx.run_engine(binary, [], cases, test_run=TEST, shards=min(8, n))
     traces, meta = [], []
